@@ -232,6 +232,36 @@ def c02Diag (j : Json) : Json := Id.run do
   let known : Array Json := if kn.contains (Json.str "<none>") then #[] else kn
   return Json.mkObj [("model", model), ("in_domain", dom), ("spec_ok", !dom || ok), ("known", Json.arr known), ("why", why)]
 
+/-- Op `c02.session`: the versions of one document on one long-lived server; version `i` is
+    judged exactly like a `c02.diag` case whose `impl` is the list of balance diagnostics the
+    server PUBLISHED for that version. -/
+def c02Session (j : Json) : Json := Id.run do
+  let vers := (jarr j "vers").toList
+  let impls := (jarr j "impl").toList
+  let mut models : Array Json := #[]
+  let mut ok := true
+  let mut dom := true
+  let mut known : Array Json := #[]
+  let mut unexplained := false
+  let mut why := ""
+  let mut i := 0
+  for v in vers do
+    let r := c02Diag (v.setObjVal! "impl" (impls.getD i (Json.arr #[])))
+    models := models.push (jget r "model")
+    dom := dom && jbool r "in_domain"
+    if !(jbool r "spec_ok") then
+      ok := false
+      why := s!"version {i + 1}: {jstr r "why"}"
+      let k := jarr r "known"
+      if k.isEmpty then unexplained := true else known := known ++ k
+    i := i + 1
+  if impls.length != vers.length then
+    ok := false
+    unexplained := true
+    why := "number of published diagnostics lists differs from the number of versions"
+  return Json.mkObj [("model", Json.arr models), ("in_domain", dom), ("spec_ok", ok),
+    ("known", if unexplained then Json.arr #[] else Json.arr known), ("why", why)]
+
 /-! ### C20 -/
 
 def balancesJ (b : Balance.AccountBalances) : Json :=
@@ -332,6 +362,7 @@ def handle (op : String) (j : Json) : Option Json :=
   | "num.amount" => some (numAmount j)
   | "c02.check" => some (c02Check j)
   | "c02.diag" => some (c02Diag j)
+  | "c02.session" => some (c02Session j)
   | "c20.balances" => some (c20Balances j)
   | "c20.hovertext" => some (c20Hover j)
   | _ => none
